@@ -110,6 +110,10 @@ def common_hash():
 def build_root():
     d = os.path.join(BUILD, tree_hash())
     os.makedirs(d, exist_ok=True)
+    try:
+        os.utime(d, None)
+    except OSError:
+        pass
     return d
 
 
@@ -125,7 +129,8 @@ def prune_builds(keep=2):
         if d == cur:
             continue
         n += 1
-        if n >= keep:
+        # only trees not used for two hours: a concurrent check on another tree may be using its directory
+        if n >= keep and time.time() - os.path.getmtime(d) > 7200:
             shutil.rmtree(d, ignore_errors=True)
 
 
